@@ -125,10 +125,10 @@ def from_duration(data: timedelta):
 
 @register_encoder(time)
 def from_time(data: time):
-    r = data.isoformat()
     if data.microsecond:
-        r = r[:12]
-    return r
+        # millisecond precision (cutting the text would also cut a UTC offset)
+        return data.isoformat(timespec="milliseconds")
+    return data.isoformat()
 
 
 @register_encoder(uuid.UUID)
@@ -141,10 +141,14 @@ def from_decimal(data: decimal.Decimal):
     if data.is_finite():
         if js_unsafe(data):
             return str(data)
-        if not data.as_tuple().exponent:
-            # integer
+        if data.as_tuple().exponent >= 0:
+            # integer (1E+2 as well)
             return int(data)
-        return float(data)
+        number = float(data)
+        if decimal.Decimal(repr(number)) != data:
+            # the float does not carry the value (1E-400 would become 0.0)
+            return str(data)
+        return number
     # infinity / NaN
     return str(data)
 
